@@ -86,6 +86,56 @@ class GcModel:
         self.ctx_fields = [f["name"] for f in a["variants"][0]["fields"]]
         self._resolve_roles(a)
 
+    # ------------------------------------------------------------------ what a collector step reports
+    CF = "core::ops::control_flow::ControlFlow"
+
+    def step_values(self, which):
+        """(worked, exhausted): the values `mark_one` / `sweep_one` return for "one unit of work done, call again" and
+        for "nothing left". ControlFlow::Continue / Break on the pinned tree. When the function returns a bool or a
+        private fieldless two-variant enum instead, "exhausted" is, by definition, what it returns from the state with
+        nothing pending (read off its own MIR) and "worked" is the other value; that the *driver* reads them the same
+        way is what the protocol exploration of do_collection then decides."""
+        cache = self.__dict__.setdefault("_step_values", {})
+        if which in cache:
+            return cache[which]
+        fn = "context::Context::" + which
+        cf = (adt(self.CF, 0, (UNIT,)), adt(self.CF, 1, (UNIT,)))
+        keys = self.prog.seed_n.get(fn)
+        if not keys:
+            cache[which] = cf
+            return cf
+        rt = self.prog.ty(self.prog.bodies[keys[0]]["locals"][0])
+        vals = None
+        if rt.get("k") == "bool":
+            vals = [I.I(0), I.I(1)]
+        elif rt.get("k") == "adt" and rt.get("def") != self.CF:
+            a = self.prog.all_adts.get(rt["def"])
+            if a and a["kind"] == "enum" and len(a["variants"]) == 2 and not any(v["fields"] for v in a["variants"]):
+                vals = [adt(rt["def"], 0, ()), adt(rt["def"], 1, ())]
+        if vals is None:
+            cache[which] = cf
+            return cf
+        if which == "mark_one":
+            st = self.mk_state(phase="Mark", root_needs_trace=False)
+        else:
+            st = self.mk_state(phase="Sweep")
+        st.mem[("root",)] = ("sym", "rootval")
+        args = [self.ctx_ref()] + ([ref(("root",), ())] if which == "mark_one" else [])
+        outs = [o for o in self.run(fn, args, st) if o.kind == "return"]
+        got = {o.value for o in outs}
+        if len(got) != 1 or next(iter(got)) not in vals:
+            raise I.InterpError("%s returns %s from the state with nothing pending: cannot tell which value of its result "
+                                "type means exhausted" % (fn, sorted(map(str, got))))
+        ex = next(iter(got))
+        cache[which] = ([v for v in vals if v != ex][0], ex)
+        return cache[which]
+
+    def step_ret_map(self, which):
+        w, e = self.step_values(which)
+        if w[0] == "adt" and w[1] == self.CF:
+            return None
+        return {w: "Continue", e: "Break"}
+
     # ------------------------------------------------------------------ the header word
     # The accessors GcHeader::{color, set_color, needs_trace, set_needs_trace, is_live, set_live, next, set_next} are
     # primitives of the model (their encode/decode round trips are decided by the flag-encoding analysis of C17). Any
